@@ -48,6 +48,11 @@ def run(tier, seed):
                 ty = F.lower.locals.get(v, '')
                 if INT_TY.match(ty.strip()) or v.endswith('.nsamples') or v.endswith('nsamples'):
                     srcs.add(v)
+        # integers parsed out of extracted text are input-derived too (atoi/stoi/strtol of a token)
+        for n_ in F.nodes(kind='assign'):
+            r_ = n_.stmt[2]
+            if r_[0] == 'call' and r_[1].split('::')[-1] in ('atoi', 'atol', 'stoi', 'stol', 'stoul', 'strtol', 'strtoul'):
+                srcs.add(ir.fmt(n_.stmt[1]))
         if not srcs:
             continue
         sinks, names = taint.tainted_sinks(fn, F, sorted(srcs))
